@@ -741,6 +741,17 @@ func c15FhirIntegerFrom(env *core.Env, v int64) {
 
 func c15DecQty(env *core.Env) {
 	defer env.In("lit", "num", "decimal-proto")()
+	// quantity literals whose number is a whole number beyond the Integer range (a quantity's number is a Decimal)
+	for _, q := range []string{"2147483648 'ms'", "5000000000 'ug'", "3000000000 milliseconds", "2147483647 'mg'", "99999999999999999999 'g'", "4294967296 days", "0010 'mg'", "12345678901234567890.5 'kg'"} {
+		r := fx.E(env, "("+q+").toString()")
+		env.Cover("quantity-literal-large")
+		num := strings.TrimLeft(strings.Fields(q)[0], "0")
+		if r.IsPanic() {
+			env.Violatef(fx.PanicSig("C15", r), "`%s` => %s", q, r.Short())
+		} else if it, ok := r.Single(); !ok || !strings.HasPrefix(it.T, num) {
+			env.Violatef("C15/literal/quantity/no-value", "valid quantity literal `%s`: `(%s).toString()` = %s", q, q, trunc(r.Short(), 100))
+		}
+	}
 	decs := []string{"0", "1", "1.0", "1.50", "-2.5", "0.001", "100", "12345678901234567890.123456789", "0.1", "0.3333333333333333333333", "99999999999.9", "-0.000000000000000000000000000001"}
 	for _, d := range decs {
 		dd, _ := decimal.NewFromString(d)
@@ -952,7 +963,7 @@ func runC15(env *core.Env) {
 
 func c15TemporalTexts(env *core.Env, rng *core.Rng) [][2]string {
 	var out [][2]string
-	dates := [][3]int{{2020, 2, 29}, {1, 1, 1}, {9999, 12, 31}, {1970, 1, 1}, {2021, 12, 31}, {1999, 7, 4}}
+	dates := [][3]int{{2020, 2, 29}, {1, 1, 1}, {9999, 12, 31}, {1970, 1, 1}, {2021, 12, 31}, {1999, 7, 4}, {2000, 2, 29}, {2400, 2, 29}, {1600, 2, 29}, {1900, 2, 28}, {2100, 3, 1}}
 	for i := 0; i < env.Size(4, 400); i++ {
 		y := 1 + rng.Intn(9999)
 		m := 1 + rng.Intn(12)
